@@ -832,4 +832,76 @@ def yamlNets : List YamlNet → Option (List Prefix)
     | some p, some ps => some (p :: ps)
     | _, _ => none
 
+/-! ## The device lookup as a step with effects (fifth deepening)
+
+`newRequestInfo` calls the device finder, and the finder is not a pure function: for a client that names
+its device by an extended human-readable ID (`<type>-<profile>-<id>` in the TLS server name or the DoH
+path) and whose device does not exist yet, `devicefinder.Default.deviceByExtID` asks the profile database
+to *create* one (`profiledb.Default.CreateAutoDevice` → the backend).  `wrapF` is `Middleware.Wrap`'s handler with
+the finder as an arbitrary state machine `find : φ → κ → φ × DevRes` (`κ`: what the finder reads off the
+connection): the repaired code consults the global access settings first and looks the device up only
+for a request that passes them; `wrapFPreFix` is the order before the repair. -/
+
+/-- `Middleware.isBlockedGlobally`: the two global clauses, over the request alone. -/
+def globalReason (g : Global) (r : Req) : Reason :=
+  if g.isBlockedIP r.addr then .globalIP
+  else if g.isBlockedHost (normQueryDomain r.qname) r.qtype then .globalHost
+  else .pass
+
+/-- The handler with its device lookup: spoofed port, global access, lookup, then the rest (`wrap` over the
+device result the lookup returned).  `r.dev` is ignored. -/
+def wrapF {φ κ : Type} (g : Global) (find : φ → κ → φ × DevRes) (s : φ) (k : κ) (r : Req) : φ × Out :=
+  if r.port == 0 then (s, { effects := [], err := false, why := "spoof" })
+  else
+    match globalReason g r with
+    | .globalIP => (s, { effects := [], err := false, why := "global-ip" })
+    | .globalHost => (s, { effects := [], err := false, why := "global-host" })
+    | _ => ((find s k).1, wrap g { r with dev := (find s k).2 })
+
+/-- The handler before the repair: the lookup came first. -/
+def wrapFPreFix {φ κ : Type} (g : Global) (find : φ → κ → φ × DevRes) (s : φ) (k : κ) (r : Req) : φ × Out :=
+  if r.port == 0 then (s, { effects := [], err := false, why := "spoof" })
+  else ((find s k).1, wrap g { r with dev := (find s k).2 })
+
+/-- A history through the handler with its finder: final finder state and the outcomes. -/
+def runF {φ κ : Type} (g : Global) (find : φ → κ → φ × DevRes) : φ → List (κ × Req) → φ × List Out
+  | s, [] => (s, [])
+  | s, (k, r) :: rest =>
+    let st := wrapF g find s k r
+    let tl := runF g find st.1 rest
+    (tl.1, st.2 :: tl.2)
+
+/-- What the finder reads off the connection of a client with an extended human-readable device ID. -/
+structure ExtKey where
+  /-- Index of the profile the ID names (`none`: the connection carries no device data). -/
+  prof : Option Nat
+  /-- The lower-case human-readable ID. -/
+  hid : String
+  /-- The backend refuses the next creation. -/
+  backendFails : Bool := false
+
+/-- The profile database as far as human-readable IDs go, with the backend's call counter. -/
+structure AutoDB where
+  /-- Existing profiles: index, automatic devices enabled, access settings. -/
+  profs : List (Nat × Bool × Option ProfAcc) := []
+  /-- Devices known by (profile, lower-case human ID). -/
+  devs : List (Nat × String) := []
+  /-- `CreateAutoDevice` calls that reached the backend. -/
+  creates : Nat := 0
+
+/-- `deviceByExtID` + `profiledb.Default.ProfileByHumanID` / `CreateAutoDevice`: no such profile → nobody; a known
+device → its profile; otherwise, if the profile allows automatic devices, one call to the backend — the new
+device, or the backend's error. -/
+def AutoDB.find (db : AutoDB) (k : ExtKey) : AutoDB × DevRes :=
+  match k.prof with
+  | Option.none => (db, .none)
+  | some i =>
+    match db.profs.find? (fun e => e.1 == i) with
+    | Option.none => (db, .none)
+    | some (_, auto, acc) =>
+      if db.devs.contains (i, k.hid) then (db, .ok acc {})
+      else if !auto then (db, .none)
+      else if k.backendFails then ({ db with creates := db.creates + 1 }, .error)
+      else ({ db with devs := db.devs ++ [(i, k.hid)], creates := db.creates + 1 }, .ok acc { autoDevices := true })
+
 end Agd.Access
